@@ -1,3 +1,4 @@
+import XPathV.Lemmas.ParserShape
 import XPathV.Model.Api
 import XPathV.Spec.Grammar
 import XPathV.Lemmas.Facts
@@ -24,8 +25,8 @@ theorem prec_chain_ok : Generated.precChain = [
 /-- the stage list the model parser runs (computed from the regenerated chain) is the tier list of
 the Recommendation's grammar: `or < and < =,!= < <,>,<=,>= < +,- < *,div,mod < unary - < |` -/
 theorem stages_are_xpath_tiers :
-    stages = (Spec.Grammar.upperTiers.map Stage.tier) ++ [Stage.unary] ++ (Spec.Grammar.lowerTiers.map Stage.tier) := by
-  decide
+    stages = (Spec.Grammar.upperTiers.map Stage.tier) ++ [Stage.unary] ++ (Spec.Grammar.lowerTiers.map Stage.tier) :=
+  Lemmas.SourceConfig.stages_are_xpath_tiers
 
 /-- T0 (F13): `*` is not a name character (so `a*b` multiplies), `:` and `/` never are -/
 theorem star_not_name_char : Generated.starIsNameChar = false ∧ Generated.nameExcludes = [58, 47] ∧
@@ -57,5 +58,35 @@ theorem dot_is_self_node : mkAxis "self" .all "" "" "" .none = Ast.axis ⟨"self
 
 /-- `//` inserts `descendant-or-self::node()` -/
 theorem slashslash_is_dos (x : Ast) : dosNode x = Ast.axis ⟨"descendant-or-self", .all, "", "", "", false, ""⟩ x := rfl
+
+/-! ## Chains of every length -/
+
+open Lemmas.ParserShape in
+/-- **left associativity, any chain length**: whatever `tierLoop` returns is the accumulator
+extended to the LEFT by the tier's operators, each right operand coming from the tighter tiers only -/
+theorem tier_loop_left_nested {cfg : PCfg} {ops : List String} {rest : List Stage} (f : Nat) (acc : Ast) (st : PState)
+    {a : Ast} {st' : PState} (h : tierLoop f cfg ops rest acc st = .ok (a, st')) :
+    ∃ items : List (String × Ast),
+      a = items.foldl (fun l (p : String × Ast) => Ast.oper p.1 l p.2) acc ∧
+      ∀ p ∈ items, p.1 ∈ ops ∧ ∃ f' s1 s2, parseChain f' cfg rest s1 = .ok (p.2, s2) :=
+  tierLoop_foldl f acc st h
+
+open Lemmas.ParserShape in
+/-- **precedence, any chain length**: every tree the parser returns for an expression is stratified
+by the XPath tiers (a looser operator never sits under a tighter one unless parenthesised) -/
+theorem parse_tree_stratified {ns : Option (List (String × String))} {f : Nat} {st st' : PState} {a : Ast}
+    (h : parseExpression f (defaultCfg ns) st = .ok (a, st')) : Strat (defaultCfg ns) stages a :=
+  parseExpression_strat h
+
+open Lemmas.ParserShape in
+/-- the headline: in a stratified tree, for an operator node that is not itself a parenthesised /
+primary sub-expression, the left operand's operator is of the same or a tighter tier and the right
+operand's of a strictly tighter tier (or is the `x * -1` encoding of unary minus) -/
+theorem operands_never_looser {cfg : PCfg} {op : String} {l r : Ast}
+    (h : Strat cfg stages (.oper op l r)) (hnp : ¬ FromPath cfg (.oper op l r)) :
+    (∀ op' x y, l = .oper op' x y → ¬ FromPath cfg l → tierRank op ≤ tierRank op') ∧
+    (∀ op' x y, r = .oper op' x y → ¬ FromPath cfg r →
+        tierRank op < tierRank op' ∨ (op' = "*" ∧ y = .num "-1" ∧ tierRank op ≤ 5)) :=
+  operands_not_looser h hnp
 
 end XPathV.Theorems.C10
